@@ -158,23 +158,31 @@ structure TxResult where
   committed : Bool
   calls : List Call
 
-/-- execute one message as a transaction -/
-def runExec (w : World) (sender : String) (funds : List Coin) (msg : ExecMsg) (f : Faults)
-    (txIndex : Option Nat := some 0) : TxResult :=
+/-- the body of a transaction: `some w'` when every step succeeded (the world to commit),
+`none` when the handler or any dispatched message failed; plus the call log -/
+def runExecCore (w : World) (sender : String) (funds : List Coin) (msg : ExecMsg) (f : Faults)
+    (txIndex : Option Nat) : Option World × List Call :=
   let info : Info := { sender, funds }
   match (if funds.isEmpty then some w.bal else bankMove w.bal sender w.self funds) with
-  | none => { w, committed := false, calls := [] }
+  | none => (none, [])
   | some bal1 =>
     let w1 := { w with bal := bal1 }
     let res := execute w1.c (w1.env txIndex) info msg
     let call := Call.execute info msg (res.map (·.2))
     match res with
-    | .error _ => { w, committed := false, calls := [call] }
+    | .error _ => (none, [call])
     | .ok (c', msgs) =>
       let d0 : Disp := { w := { w1 with c := c' }, calls := [call] }
       match dispatchAll f d0 msgs with
-      | (d, true) => { w := d.w, committed := true, calls := d.calls }
-      | (d, false) => { w, committed := false, calls := d.calls }
+      | (d, true) => (some d.w, d.calls)
+      | (d, false) => (none, d.calls)
+
+/-- execute one message as a transaction: commit the new world or keep the old one -/
+def runExec (w : World) (sender : String) (funds : List Coin) (msg : ExecMsg) (f : Faults)
+    (txIndex : Option Nat := some 0) : TxResult :=
+  match runExecCore w sender funds msg f txIndex with
+  | (some w', calls) => { w := w', committed := true, calls }
+  | (none, calls) => { w, committed := false, calls }
 
 /-- events of a history (DESIGN.md §4.3) -/
 inductive Event where
